@@ -172,6 +172,14 @@ pub fn damage(r: &Rendering) -> Vec<Damaged> {
             out.push(Damaged { op: 11, variant: "undeclared-handle", site: i, text: s });
         }
     }
+    // 10b. an alias in a LATER document to an anchor of an earlier one (anchors end with their document)
+    if let Some(i) = t.find("&a") {
+        let name: String = t[i + 1..].chars().take_while(|c| c.is_ascii_alphanumeric()).collect();
+        if !r.last_doc_has_end_marker && t.ends_with('\n') {
+            out.push(Damaged { op: 10, variant: "alias-to-earlier-document explicit", site: t.len(), text: format!("{t}--- *{name}\n") });
+            out.push(Damaged { op: 10, variant: "alias-to-earlier-document bare", site: t.len(), text: format!("{t}...\n*{name}\n") });
+        }
+    }
     // 12. repeated %YAML directive; 13. directives without '---'
     if let Some(rest) = t.strip_prefix("%YAML 1.2\n---") {
         out.push(Damaged { op: 12, variant: "duplicate-yaml-directive", site: 0, text: format!("%YAML 1.2\n{t}") });
